@@ -32,7 +32,7 @@ import warnings
 import core
 import isoutil
 from rdflib import BNode, Graph, Literal, URIRef
-from rdflib.compare import graph_diff, isomorphic, to_canonical_graph, to_isomorphic
+from rdflib.compare import graph_diff, isomorphic, similar, to_canonical_graph, to_isomorphic
 
 warnings.filterwarnings("ignore", category=DeprecationWarning)
 import logging  # noqa: E402
@@ -317,7 +317,90 @@ def random_sparse(rng):
     return out
 
 
+# ---- vertex-transitive / strongly regular blank-node graphs (edge lists): refinement separates nothing, the search
+# keeps several equal-trace branches per level and recurses below them (seeded C14-16: automorphisms found in one branch
+# reused in a sibling branch show only on these).  Whether a wrong pruning shows depends on the hash VALUES, hence the
+# pool of predicates.
+
+def _cayley(n1, n2, conn):
+    idx = lambda a, b: (a % n1) * n2 + (b % n2)   # noqa: E731
+    e = set()
+    for a in range(n1):
+        for b in range(n2):
+            for da, db in conn:
+                u, v = idx(a, b), idx(a + da, b + db)
+                e.add((min(u, v), max(u, v)))
+    return sorted(e)
+
+
+def _gpetersen(n, k):
+    return [(i, (i + 1) % n) for i in range(n)] + [(i, n + i) for i in range(n)] + [(n + i, n + (i + k) % n) for i in range(n)]
+
+
+def _lcf(n, pattern):
+    e = set()
+    for i in range(n):
+        for j in ((i + 1) % n, (i + pattern[i % len(pattern)]) % n):
+            e.add((min(i, j), max(i, j)))
+    return sorted(e)
+
+
+SYM_EDGES = {
+    "heawood": [(i, (i + 1) % 14) for i in range(14)] + [(i, (i + 5) % 14) for i in range(0, 14, 2)],
+    "shrikhande": _cayley(4, 4, [(1, 0), (0, 1), (1, 1)]),
+    "rook4x4": _cayley(4, 4, [(1, 0), (2, 0), (3, 0), (0, 1), (0, 2), (0, 3)]),
+    "moebius-kantor": _gpetersen(8, 3),
+    "pappus": _lcf(18, [5, 7, -7, 7, -7, -5]),
+    "desargues": _gpetersen(10, 3),
+    "paley13": [(i, j) for i in range(13) for j in range(i + 1, 13) if (j - i) % 13 in {1, 3, 4, 9, 10, 12}],
+    "q4": [(i, i ^ (1 << b)) for i in range(16) for b in range(4) if i < i ^ (1 << b)],
+    "clebsch": [(i, i ^ (1 << b)) for i in range(16) for b in range(4) if i < i ^ (1 << b)] + [(i, i ^ 15) for i in range(16) if i < i ^ 15],
+}
+SYM_PREDS = ["<http://example.org/p>", "<http://example.org/knows>", P, Q, "<http://xmlns.com/foaf/0.1/knows>",
+             "<http://purl.org/dc/terms/relation>", "<http://www.w3.org/2002/07/owl#sameAs>", "<urn:x>"]
+
+
+def sym_graph(name, pred):
+    return [t for u, v in SYM_EDGES[name] for t in und(u, v, pred)]
+
+
+# ---- literals whose rdflib ORDER is not a consistent total order (numerics compare by value, unlike datatypes by
+# datatype IRI: C07-K4 / C08-K1), as objects of ONE subject+predicate: anything that sorts triples (compare.similar)
+# depends on the insertion order (seeded C14-17)
+_X = "<%s" % XSD
+LIT_CLUSTERS = [
+    ['"5"^^%sdecimal>' % _X, '"P1D"^^%sduration>' % _X, '"1"^^%sinteger>' % _X],
+    ['"1"^^%sinteger>' % _X, '"1.0"^^%sdecimal>' % _X],
+    ['"1"^^%sinteger>' % _X, '"1.0"^^%sdecimal>' % _X, '"1"^^%sdouble>' % _X, '"01"^^%sinteger>' % _X],
+    ['""', '"1"^^%sunsignedShort>' % _X, '"10"^^%snonNegativeInteger>' % _X],
+    ['"1"^^%sunsignedInt>' % _X, '"a"', '"5"^^%sinteger>' % _X],
+    ['"2"^^%sfloat>' % _X, '"2"^^%sinteger>' % _X, '"2.0"^^%sdecimal>' % _X, '"true"^^%sboolean>' % _X, '"b"@en'],
+    ['"5"^^%sdecimal>' % _X, '"P1D"^^%sduration>' % _X, '"1"^^%sinteger>' % _X, '"2001-01-01"^^%sdate>' % _X, '"x"'],
+]
+
+
+def lit_order_graph(rng):
+    """1-3 blank nodes (a chain or isolated), each with one or two clusters under one predicate"""
+    n = rng.randint(1, 3)
+    g = [[i, P, i + 1] for i in range(n - 1)] if rng.random() < 0.6 else []
+    for i in range(n):
+        for _ in range(rng.randint(1, 2)):
+            cl = rng.choice(LIT_CLUSTERS)
+            g += [[i, Q, x] for x in rng.sample(cl, rng.randint(2, len(cl)))]
+    if rng.random() < 0.3:    # the same inconsistent cluster in ground triples
+        g += [["<http://e/a>", Q, x] for x in rng.choice(LIT_CLUSTERS)]
+    if n == 1 and not g:
+        g = [[0, Q, x] for x in LIT_CLUSTERS[0]]
+    out = []
+    for t in g:
+        if t not in out:
+            out.append(t)
+    return out
+
+
 FAMILIES = {
+    "symmetric": lambda r: sym_graph(r.choice(sorted(SYM_EDGES)), r.choice(SYM_PREDS)),
+    "lit-order": lit_order_graph,
     "cycle": lambda r: cycle(r.randint(3, 8), r.random() < 0.5),
     "cycle-big": lambda r: cycle(r.randint(9, 12), r.random() < 0.5),
     "kmn": lambda r: kmn(*r.choice([(1, 3), (2, 2), (2, 3), (3, 3), (2, 4), (4, 4), (3, 4), (2, 5)]), r.random() < 0.5),
@@ -350,7 +433,7 @@ FAMILIES = {
 }
 FAM_WEIGHTS = [("cycle", 12), ("cycle-big", 3), ("kmn", 9), ("copies", 10), ("mixed-cycles", 10), ("orbits", 9), ("orbits-regular", 3), ("perm", 6), ("perm2", 14), ("perm2-uneven", 4),
                ("rand-regular", 6), ("literals", 16), ("prism", 7), ("mobius", 6),
-               ("petersen", 3), ("cfi", 4), ("lists", 6), ("stars", 7), ("sparse", 18), ("ground", 3)]
+               ("petersen", 3), ("cfi", 4), ("lists", 6), ("stars", 7), ("sparse", 18), ("ground", 3), ("symmetric", 1), ("lit-order", 8)]
 TWINS = [
     ("c6|2c3", lambda: cycle(6, True), lambda: disjoint(cycle(3, True), cycle(3, True))),
     ("dc6|2dc3", lambda: cycle(6), lambda: disjoint(cycle(3), cycle(3))),
@@ -699,6 +782,22 @@ def gen_case(rng, tier, i):
     return with_ident(rng, case) if case["kind"] == "pair" else case
 
 
+# fixed slots of every run: symmetric graphs with the predicates for which a wrong pruning is likely to show, and the
+# inconsistent literal clusters (several draws each: the outcome depends on insertion order / the process hash seed)
+SYM_FIXED = {13: ("heawood", "<http://example.org/p>", 4), 14: ("shrikhande", "<http://example.org/p>", 3),
+             15: ("rook4x4", "<http://e/q>", 3)}
+SYM_CHEAP = {"heawood", "moebius-kantor", "paley13", "q4"}
+CASE_TIMEOUT_S = 45.0   # core's per-case watchdog (CPU seconds); every rdflib call keeps its own 10 s CPU guard (`call`)
+LIT_FIXED = {16: 0, 17: 1, 18: 2, 19: 0, 20: 1, 21: 3, 22: 4, 23: 0, 24: 2}
+
+
+# non-isomorphic twins with equal parameters among the vertex-transitive graphs (20+ s of CPU per pair: thorough only)
+TWINS_BIG = [
+    ("shrikhande|rook4x4", lambda: sym_graph("shrikhande", P), lambda: sym_graph("rook4x4", P)),
+    ("desargues|gp10-2", lambda: sym_graph("desargues", P), lambda: [t for u, v in _gpetersen(10, 2) for t in und(u, v)]),
+]
+
+
 def gen_case0(rng, tier, i):
     if tier == "thorough" and i < len(classes()):
         n, _e, _l, m = classes()[i]
@@ -708,13 +807,29 @@ def gen_case0(rng, tier, i):
         return gen_nearmiss(rng, NEAR_KINDS[(j - 5) % len(NEAR_KINDS)])
     if j in (3, 211) or (tier == "thorough" and j % 1500 == 7):
         return gen_skolem_big(rng, "external-basepath" if j == 3 else rng.choice(["default", "external-basepath"]))
+    if j in SYM_FIXED:
+        name, pred, k = SYM_FIXED[j]
+        return gen_multi(rng, "symmetric", sym_graph(name, pred), k)
+    if j in LIT_FIXED:
+        a = [[0, TYPE, "<http://e/C>"]] + [[0, Q, x] for x in LIT_CLUSTERS[LIT_FIXED[j]]]
+        g1, lab1 = render(rng, a)
+        g2, lab2 = render(rng, a)
+        return {"kind": "pair", "fam": "lit-order", "how": "relabel", "g1": g1, "g2": g2,
+                "map": {x: y for x, y in zip(lab1, lab2)}}
+    if tier == "thorough" and j % 1700 == 23:
+        # one Heawood pair per ~1700 cases goes through the Lean model of `_traces` (6 s of driver time each)
+        a = sym_graph("heawood", rng.choice(SYM_PREDS))
+        g1, lab1 = render(rng, a)
+        g2, lab2 = render(rng, a)
+        return {"kind": "pair", "fam": "symmetric", "how": "relabel", "g1": g1, "g2": g2, "traces": True,
+                "map": {x: y for x, y in zip(lab1, lab2)}}
     r = rng.random()
     if r < 0.14:
         return gen_skolem(rng)
     if r < 0.23:
         return gen_hist(rng)
     if r < 0.29:
-        name, fa, fb = rng.choice(TWINS)
+        name, fa, fb = rng.choice(TWINS + (TWINS_BIG if tier == "thorough" and rng.random() < 0.15 else []))
         a, b = fa(), fb()
         dec = rng.random()
         if dec < 0.3:
@@ -724,8 +839,17 @@ def gen_case0(rng, tier, i):
         g2, _ = render(rng, b)
         return {"kind": "pair", "fam": name, "how": "twin", "g1": g1, "g2": g2, "map": None}
     fam = pick_family(rng)
-    a = decorate(rng, FAMILIES[fam](rng))
-    if r < 0.40:
+    if fam == "symmetric":
+        name = rng.choice(sorted(SYM_EDGES))
+        a = sym_graph(name, rng.choice(SYM_PREDS))
+        if name not in SYM_CHEAP:    # 1-2 s of CPU per canonicalisation: only the cheaper multi route, few copies
+            return gen_multi(rng, fam, a, 3)
+        a = decorate(rng, a)
+        if r < 0.40:
+            return gen_multi(rng, fam, a, 3)
+    else:
+        a = decorate(rng, FAMILIES[fam](rng))
+    if fam != "symmetric" and r < 0.40:
         return gen_multi(rng, fam, a, rng.randint(4, 7))
     g1, lab1 = render(rng, a)
     if rng.random() < 0.5:
@@ -1016,11 +1140,11 @@ def canon_line(g1, g2):
 TRACES_MAX = int(os.environ.get("C14_TRACES_MAX", "8"))   # blank nodes per graph given to the model of `_traces`
 
 
-def traces_ok(g1, g2):
-    return max(len(bn_of(g1)), len(bn_of(g2))) <= TRACES_MAX
+def traces_ok(g1, g2, case=None):
+    return bool(case and case.get("traces")) or max(len(bn_of(g1)), len(bn_of(g2))) <= TRACES_MAX
 
 
-def refine_lines(g1, g2):
+def refine_lines(g1, g2, case=None):
     """driver lines for the colour-refinement model (RV/C14/Canon.lean `refineInit`, `canonRefine`): triples are coded
     with the pair's shared vocabulary and de-duplicated by CODE (equal rdflib terms share a code; the model reads the
     list as the graph's triples, the store holds each triple once)"""
@@ -1036,7 +1160,7 @@ def refine_lines(g1, g2):
                 out.extend(t)
         return " ".join(out)
     a, b = uniq(a), uniq(b)
-    return [f"canonrefine {a} | {b}"] + ([f"canontraces {a} | {b}"] if traces_ok(g1, g2) else [])
+    return [f"canonrefine {a} | {b}"] + ([f"canontraces {a} | {b}"] if traces_ok(g1, g2, case) else [])
 
 
 def refine_stats_obs(st):
@@ -1062,7 +1186,7 @@ def model_lines(case):
         if not l:
             return []
         return ([l, "diff"] + ([canon_line(case["g1"], case["g2"])] if canon_ok(case["g1"], case["g2"]) else [])
-                + refine_lines(case["g1"], case["g2"]))
+                + refine_lines(case["g1"], case["g2"], case))
     if case["kind"] == "skolem":
         return [] if k2_case(case) else [skolem_line(case)]
     if case["kind"] == "exh":
@@ -1088,9 +1212,10 @@ def select_model_obs(case, out):
         # equality of the two canonical graphs as predicted by the model: by `canonRefine` (labels from the refined
         # colour hashes, theorems canon_complete_partial / canon_sound_partial) when the model's refinement is discrete
         # on both graphs, otherwise (driver answers n/a) by the verified isomorphism verdict (theorem canon_decides)
-        return ([out[0]] * 4 + ["diff " + out[1]] + (["canon-search-verdict " + out[2]] if n == 3 else [])
+        ne = "true" if out[0] == "false" else "false" if out[0] == "true" else out[0]
+        return ([out[0]] * 4 + ["diff " + out[1], "ne " + ne] + (["canon-search-verdict " + out[2]] if n == 3 else [])
                 + ["canon-refine-verdict " + (out[n] if out[n] != "n/a" else out[0])]
-                + (["canon-traces-verdict " + out[n + 1]] if traces_ok(case["g1"], case["g2"]) else []))
+                + (["canon-traces-verdict " + out[n + 1]] if traces_ok(case["g1"], case["g2"], case) else []))
     if case["kind"] == "skolem":
         return ["skolem-roundtrip-iso " + out[0]] if out else []
     if case["kind"] == "hist":
@@ -1292,11 +1417,20 @@ def run_pair(case):
     st1, st2 = {}, {}
     ok5, cgs = call(viol, "to_canonical_graph", lambda: (set(to_canonical_graph(g1, stats=st1)), set(to_canonical_graph(g2, stats=st2)))) if ok else (False, None)
     ok6, diff = call(viol, "graph_diff", lambda: tuple(set(x) for x in graph_diff(g1, g2))) if ok else (False, None)
-    if not (ok and ok2 and ok3 and ok4 and ok5 and ok6):
+    if nb <= LEAN_MAX:
+        ok7, r_ne = call(viol, "to_isomorphic(g1)!=to_isomorphic(g2)", lambda: to_isomorphic(g1) != to_isomorphic(g2)) if ok else (False, None)
+    else:
+        ok7, r_ne = ok3, (not r_eq if ok3 else None)
+    ok8, r_sim = call(viol, "similar(g1,g2)", similar, g1, g2) if ok else (False, None)
+    if not (ok and ok2 and ok3 and ok4 and ok5 and ok6 and ok7 and ok8):
         return {"obs": [], "viol": viol, "nontrivial": True, "key": "abort", "stats": stats}
 
     r_can = cgs[0] == cgs[1]
-    for name, r in (("isomorphic", r_iso), ("to_isomorphic-eq", r_eq), ("graph_digest-eq", r_dig)):
+    if truth and not r_sim:
+        # `similar` (triples equal once blank nodes are squashed) is a necessary condition of isomorphism
+        viol.append("similar-false-negative: similar(g1,g2) is False for graphs that are equal up to blank-node renaming")
+    stats["similar_true" if r_sim else "similar_false"] = 1
+    for name, r in (("isomorphic", r_iso), ("to_isomorphic-eq", r_eq), ("graph_digest-eq", r_dig), ("not to_isomorphic-ne", not r_ne)):
         if bool(r) != truth:
             viol.append(f"{'false-positive' if r else 'false-negative'}: {name} returned {r} but the graphs are "
                         f"{'' if truth else 'not '}equal up to blank-node renaming")
@@ -1343,12 +1477,13 @@ def run_pair(case):
             raise RuntimeError(f"ORACLE DISAGREEMENT isoutil={expect} lean={got} case={case}")
     if line:
         obs = [b2s(r_iso), b2s(r_eq), b2s(r_dig), b2s(r_can), "diff %s %s %s" % (b2s(d1), b2s(d2), b2s(d3))]
+        obs.append("ne " + b2s(bool(r_ne)))
         if canon_ok(g1s, g2s):
             obs.append("canon-search-verdict " + b2s(r_can))
         # the colour-refinement model, through the public `stats` of to_canonical_graph
         (k1, dis1), (k2, dis2) = refine_stats_obs(st1), refine_stats_obs(st2)
         obs.append("canon-refine-verdict " + b2s(r_can))
-        if traces_ok(g1s, g2s):
+        if traces_ok(g1s, g2s, case):
             # the model of canonical_triples INCLUDING the `_traces` search (RV/C14/Traces.lean) predicts the equality
             # of the two canonical graphs from its own canonical triples
             obs.append("canon-traces-verdict " + b2s(r_can))
@@ -1370,19 +1505,25 @@ def run_multi(case):
     viol, obs, stats = [], [], {"multi": 1, "multi_copies": len(gs) - 1, "fam_" + case["fam"]: 1}
     graphs = [mk_graph(g) for g in gs]
     res = []
+    big = len(bn_of(gs[0])) > 12    # vertex-transitive graphs: one canonicalisation costs 0.5-2 s of CPU
     for k, g in enumerate(graphs):
-        ok, r = call(viol, "graph_digest/to_canonical_graph", lambda: (to_isomorphic(g).graph_digest(), set(to_canonical_graph(g))))
+        ok, d = call(viol, "graph_digest", lambda: to_isomorphic(g).graph_digest())
+        if ok and (not big or k < 1):
+            ok, c = call(viol, "to_canonical_graph", lambda: set(to_canonical_graph(g)))
+        else:
+            c = None     # the digest (sum of the hashes of the canonical triples) stands for the canonical graph
         if not ok:
             return {"obs": [], "viol": viol, "nontrivial": True, "key": "abort", "stats": stats}
-        res.append(r)
+        res.append((d, c))
     s0 = set(graphs[0])
     xlines, expect = [], []
     for k in range(1, len(gs)):
         truth = py_iso(s0, set(graphs[k]))
         if not truth:
             raise RuntimeError("generator error: relabelled copy is not isomorphic according to isoutil")
-        same_d, same_c = res[k][0] == res[0][0], res[k][1] == res[0][1]
-        if k == 1:
+        same_d = res[k][0] == res[0][0]
+        same_c = same_d if res[k][1] is None else res[k][1] == res[0][1]
+        if k == 1 and not big:
             ok, r = call(viol, "isomorphic", isomorphic, graphs[0], graphs[1])
             if ok and not r:
                 viol.append("false-negative: isomorphic returned False for a relabelled and shuffled copy")
@@ -1758,6 +1899,21 @@ def _m_langtag(case, result):
     return len({x.lower() for x in lits}) < len(lits) or len(lits) != len({T(x).n3() for x in lits})
 
 
+def _m_similar(case, result):
+    """(fixed, C14-F5) similar() is False for isomorphic graphs that hold literals of different datatypes under one
+    subject and predicate"""
+    if case.get("kind") != "pair" or not any(v.startswith("similar-false-negative") for v in result["viol"]):
+        return False
+    for g in (case["g1"], case["g2"]):
+        by = {}
+        for s_, p_, o_ in g:
+            if type(o_) is str and o_.startswith('"'):
+                by.setdefault((s_ if not is_b(s_) else "_", p_), set()).add(o_[o_.rfind('"'):])
+        if any(len(v) > 1 for v in by.values()):
+            return True
+    return False
+
+
 def _m_traces(case, result):
     """(fixed, C14-F2) relabelled copies of a graph whose blank nodes form one colour class with >= 3 orbits get
     different digests"""
@@ -1801,5 +1957,5 @@ def _m_uriref(case, result):
             and bool(result["viol"]))
 
 
-MATCHERS = {"deskolemize_uriref_mode": _m_uriref, "dot_segment_or_genid_in_bnode_id": _m_dotseg, "genid_iri_in_input": _m_genid, "langtag_case": _m_langtag, "traces_unverified_generator": _m_traces,
+MATCHERS = {"similar_literal_order": _m_similar, "deskolemize_uriref_mode": _m_uriref, "dot_segment_or_genid_in_bnode_id": _m_dotseg, "genid_iri_in_input": _m_genid, "langtag_case": _m_langtag, "traces_unverified_generator": _m_traces,
             "traces_equal_trace_leaves": _m_traces_leaves}
